@@ -1138,6 +1138,7 @@ func main() {
 	run.Set("rule", "The PRG core of a real generator object is replaced by a byte tape (reflect+unsafe); cases are tapes. "+
 		"U1: for every n<=N and every n in {2^k,2^k+-1,2^64-1,2^64-2} with n<=2^16, ALL 256^size first-attempt strings (size=bytes of n-1): result<n, accepted iff one Read, every value of [0,n) hit by the same number >=1 of accepted strings (counting = exact uniformity); "+
 		"U2: every rejected byte x every next byte (size 1), boundary candidates squared (size 2), and two rejections: rejected attempts followed by y behave as y alone; "+
+		"U5: for 17 values of n that are not powers of two, R all-ones (rejected) attempts followed by the attempt 1 for EVERY R up to 160 (thorough 600): must return 1 after exactly R+1 reads; "+
 		"U3: n>2^16 from the special set: 256 top bytes x ~10 corner patterns of the lower bytes, one bit width B must explain all observations as v=tape mod 2^B, accept iff v<n, return v; 0 and n-1 reachable; continuation after 1 and 2 rejections; (the 256^size space is NOT enumerable there: pattern coverage only); "+
 		"U4: all ordered pairs (n1,n2) of a boundary set: UintN(n2) after UintN(n1) equals UintN(n2) on a fresh object for ~10 boundary tapes x 3 first tapes; "+
 		"P: Permutation/SubPermutation/Shuffle/Samples for all n<=nmax, m<=n: DFS over all tapes over one representative byte per measured indistinguishability class, all tapes consuming <= minimal+2 bytes, every run on the real code; outputs valid, per consumed length all n!/(n-m)! outcomes produced by the same number of tapes; "+
@@ -1200,6 +1201,40 @@ func main() {
 	ev.Par(len(bigs), func(i int) { bigN(bigs[i]) })
 	run.Set("uintn_special_n_big", len(bigs))
 	run.Sample(map[string]any{"part": "U3", "call": fmt.Sprintf("UintN(%d)", uint64(1)<<32+1), "tape_hex": "ffffffff01", "meaning": "top byte 01 with all-ones lower bytes: masked value 2^33-1 > n-1, rejected"})
+
+	// U5: deep rejection chains. The deviation "a rejected attempt" is iterated far beyond 2 along one
+	// line: R all-ones attempts (rejected for every n that is not a power of two) followed by the
+	// attempt "1" must return 1 after exactly R+1 reads, for every R up to the bound — a sampler that
+	// gives up after some number of rejections (fallback to a modulo, a cap on the loop) fails here.
+	{
+		rmax := 160
+		if run.Thorough() {
+			rmax = 600
+		}
+		chains := []uint64{3, 5, 6, 7, 9, 100, 129, 255, 257, 1000, 40000, 65537, 1<<24 + 1, 1<<32 + 1, 1<<40 + 3, 1<<63 + 1, ^uint64(0)}
+		ev.Par(len(chains), func(i int) {
+			n := chains[i]
+			size := byteLen(n - 1)
+			rg := newRig()
+			for R := 1; R <= rmax; R++ {
+				t := make([]byte, 0, (R+1)*size)
+				for k := 0; k < R*size; k++ {
+					t = append(t, 0xff)
+				}
+				t = append(t, le(1, size)...)
+				got := rg.uintn(n, t)
+				evals.Add(1)
+				if got.reads != R+1 || got.res != 1 {
+					viol("uintn:deep-rejection-chain", fmt.Sprintf("UintN(%d) on a tape of %d rejected (all-ones) attempts followed by the attempt 1: got %d after %d reads, expected 1 after %d reads", n, R, got.res, got.reads, R+1),
+						replay{Kind: "uintn", N: n, Tape: ev.Hex(t)})
+					break
+				}
+				run.Distinct(fmt.Sprintf("U5/%d/%d", n, R))
+			}
+		})
+		run.Set("deep_rejection_chain_bound", rmax)
+		run.Set("deep_rejection_chain_n", len(chains))
+	}
 
 	// U4
 	bset := []uint64{1, 2, 3, 4, 5, 7, 8, 9, 255, 256, 257, 258, 65535, 65536, 65537, 1 << 24, 1<<24 + 1, 1<<32 - 1, 1 << 32, 1<<32 + 1, 1 << 56, 1<<56 + 1, 1 << 63, 1<<63 + 1, ^uint64(0)}
